@@ -94,6 +94,24 @@ class _FoldConstFStrings(ast.NodeTransformer):
         self.generic_visit(node)
         if all(isinstance(v, ast.Constant) and isinstance(v.value, str) for v in node.values):
             return ast.copy_location(ast.Constant(value="".join(v.value for v in node.values)), node)
+        # adjacent constant pieces of an f-string are one piece ('a' 'b' f'{c}' == 'ab' f'{c}')
+        merged = []
+        for v in node.values:
+            if merged and isinstance(v, ast.Constant) and isinstance(v.value, str) and isinstance(merged[-1], ast.Constant) and isinstance(merged[-1].value, str):
+                merged[-1] = ast.Constant(value=merged[-1].value + v.value)
+            else:
+                merged.append(v)
+        node.values = merged
+        return node
+
+    def visit_UnaryOp(self, node):
+        """-1 written as a sign applied to a literal and the negative constant denote the same value (CPython folds it too);
+        what matters is what the sign applies to: (-1) ** 2 and -1 ** 2 stay different"""
+        self.generic_visit(node)
+        if isinstance(node.op, (ast.USub, ast.UAdd)) and isinstance(node.operand, ast.Constant) \
+                and isinstance(node.operand.value, (int, float, complex)) and not isinstance(node.operand.value, bool):
+            v = node.operand.value
+            return ast.copy_location(ast.Constant(value=-v if isinstance(node.op, ast.USub) else +v), node)
         return node
 
 
